@@ -103,6 +103,7 @@ def find_lexicons(
 ) -> Iterator[_Lexicon]:
     cur = connect().cursor()
     found = False
+    seen: set[int] = set()  # several specifiers may match the same lexicon
     for specifier in lexicon.split():
         # a specifier without a glob pattern selects a single lexicon:
         # the one with that id and version or, if only an id is given,
@@ -123,8 +124,10 @@ def find_lexicons(
         '''
         params = {'specifier': specifier, 'language': lang}
         for row in cur.execute(query, params):
-            yield row
             found = True
+            if row[0] not in seen:
+                seen.add(row[0])
+                yield row
     # only raise an error when the query specifies something
     if not found and (lexicon != '*' or lang is not None):
         raise wn.Error(
